@@ -14,12 +14,18 @@ TECHNIQUE = 'bounded exhaustive enumeration of tree shapes x head assignments, s
 def plan(tier, seed):
     specs = [(2, 1), (3, 1), (4, 1), (5, 1), (6, 0)] if tier == 'quick' else \
             [(2, 2), (3, 2), (4, 2), (5, 1), (6, 1), (7, 0)]
+    chunks = sweep.shape_chunks(specs, per_chunk=24, tier=tier)
+    for n in range(2, (6 if tier == 'quick' else 7)):
+        total = len(sweep.base_shapes(n))
+        for lo in range(0, total, 200):
+            chunks.append({'kind': 'cli', 'n': n, 'lo': lo, 'hi': min(total, lo + 200)})
     return {
-        'chunks': sweep.shape_chunks(specs, per_chunk=24, tier=tier),
+        'chunks': chunks,
         'rule': 'every hierarchy over n tokens with up to u unary insertions x every head assignment (one head '
                 'child per constituent, expressed through HD edges) x {with, without root_attach first}; '
                 'boyd_split alone (blocks, head block, marking/numbering) and the full pipeline against the '
-                'set-based reference. non-trivial = distinct (shape, heads, root_attach) cases whose input is '
+                'set-based reference; the same pipeline through `treetools transform --trans ...` on corpora holding every '
+                'shape up to n = 5 (6) as one sentence each. non-trivial = distinct (shape, heads, root_attach) cases whose input is '
                 'discontinuous',
         'bound': ', '.join('n=%d:u<=%d' % s for s in specs),
         'exhaustive': True,
@@ -202,13 +208,71 @@ def check_one(mtj, root_attach, order=None, rules=None):
     return out, disc
 
 
+def check_cli(n, lo, hi):
+    """The README pipeline through the command line: every shape in the slice becomes one sentence of an
+    export corpus; `treetools transform --trans root_attach negra_mark_heads boyd_split raising` must write
+    the trees the two references (root_attach rule, split-and-raise) predict."""
+    import os
+    from .. import codecs, cli, sweep as _sweep
+    from ..runner import scratch
+    from .c12 import ref_root_attach
+    shapes = _sweep.base_shapes(n)[lo:hi]
+    mts = []
+    for i, sh in enumerate(shapes):
+        choice = {p: (len(sub) - 1 if (i + len(p)) % 2 else 0) for p, sub in model.nodes_of(sh)}
+        m = assign_heads(sh, choice)
+        m.sid = i + 1
+        mts.append(m)
+    case = {'cli': True, 'n': n, 'lo': lo, 'hi': hi}
+    out = []
+    src = os.path.join(scratch(), 'c05.export')
+    dest = os.path.join(scratch(), 'c05.out')
+    with open(src, 'w', encoding='utf-8') as f:
+        f.write(codecs.encode_export(mts))
+    st, so, se, exc = cli.run(['transform', src, dest, '--trans', 'root_attach', 'negra_mark_heads', 'boyd_split', 'raising'])
+    if st != 0:
+        return [{'kind': 'cli-failed', 'where': 'transform --trans', 'case': case,
+                 'detail': 'exit status %r %s' % (st, cli.describe(exc)), 'what': 'pipeline through the CLI failed'}]
+    try:
+        got = codecs.decode_export(open(dest, encoding='utf-8').read())
+    except codecs.DecodeError as e:
+        return [{'kind': 'undecodable', 'where': 'transform --trans', 'case': case, 'detail': str(e),
+                 'what': 'pipeline output is not an export file'}]
+    if len(got) != len(mts):
+        return [{'kind': 'tree-count', 'where': 'transform --trans', 'case': case,
+                 'detail': '%d trees written for %d sentences' % (len(got), len(mts)), 'what': 'pipeline lost trees'}]
+    for m, g in zip(mts, got):
+        attached = model.MT(m.sid, m.toks, ref_root_attach(m)[0])
+        exp = model.MT(m.sid, m.toks, refs.split_raise(attached))
+        d = mt_equal(exp, g, tok_fields=('word', 'pos', 'edge'), edges=True, sid=True)
+        if d:
+            out.append({'kind': 'cli-pipeline-mismatch', 'where': 'transform --trans', 'case': case,
+                        'detail': 'sentence %d, input %s: %s' % (m.sid, model.mt_str(m.root, m.toks), d),
+                        'what': 'the crossing-branch pipeline through the CLI differs from the reference'})
+    return out
+
+
 def check_case(case):
+    if case.get('cli'):
+        with quiet():
+            return check_cli(case['n'], case['lo'], case['hi'])
     with quiet():
         return check_one(case['mt'], case['root_attach'], case.get('order'), case.get('rules'))[0]
 
 
 def run_chunk(chunk):
     res = Result()
+    if chunk.get('kind') == 'cli':
+        with quiet():
+            vs = check_cli(chunk['n'], chunk['lo'], chunk['hi'])
+        res.evals += chunk['hi'] - chunk['lo']
+        res.nontrivial += chunk['hi'] - chunk['lo']
+        res.outcome((chunk['n'], chunk['lo'], len(vs)))
+        for v in vs:
+            res.violation(v['kind'], v['where'], v['case'], v['detail'], v['what'])
+        res.sample({'cli': 'treetools transform SRC DEST --trans root_attach negra_mark_heads boyd_split raising',
+                    'sentences': chunk['hi'] - chunk['lo'], 'tokens_per_sentence': chunk['n']})
+        return res
     with quiet():
         idx = 0
         for sh, k in sweep.iter_shapes(chunk):
